@@ -339,6 +339,13 @@ fn c01_canary_must_fail() {
     assert!(false, "canary");
 }
 
+
+// NOTE: harnesses for `JsValue::{strict_equals, same_value, same_value_zero}` (value/equality.rs) and for the
+// consistency of `Hash for JsValue` with SameValueZero (value/hash.rs) were written and measured: restricted to
+// Number operands they do not finish in 10 min - both functions match on `(self.variant(), other.variant())`,
+// whose pointer arms (clone/drop of string, bigint, object handles and the non-numeric comparison) CBMC cannot
+// prune (DESIGN.md section 1).  They are kept in /verif/attempts/equality_hash.rs and are NOT part of any check.
+
 // ====================================================================== C12: public JsValue API
 
 fn only_number(v: &JsValue) -> bool {
